@@ -255,7 +255,34 @@ impl<'tcx> Cx<'tcx> {
             let v: i128 = if ty.is_signed() { si.to_int(size) } else { bits as i128 };
             J::O(vec![("c", s("int")), ("v", J::I(v)), ("ty", s(tys))])
           }
-          Err(_) => J::O(vec![("c", s("ptr")), ("ty", s(tys))]),
+          Err(_) => {
+            // a pointer to constant memory: for `&[u8; N]` (byte-string literals, N <= 64) keep the bytes so that rules can tell b"RTPS" from b"RTPX"
+            let mut bytes = J::N;
+            if let rustc_middle::mir::interpret::Scalar::Ptr(ptr, _) = sc {
+              if let ty::Ref(_, inner, _) = ty.kind() {
+                if let ty::Array(elem, _) = inner.kind() {
+                  if *elem == tcx.types.u8 {
+                    let env = TypingEnv::post_analysis(tcx, body_def);
+                    if let Ok(layout) = tcx.layout_of(env.as_query_input(*inner)) {
+                      let n = layout.size.bytes() as usize;
+                      let (prov, off) = ptr.into_raw_parts();
+                      if n <= 64 {
+                        if let rustc_middle::mir::interpret::GlobalAlloc::Memory(a) = tcx.global_alloc(prov.alloc_id()) {
+                          let a = a.inner();
+                          let off = off.bytes() as usize;
+                          if off + n <= a.len() {
+                            let b = a.inspect_with_uninit_and_ptr_outside_interpreter(off..off + n);
+                            bytes = J::A(b.iter().map(|x| J::I(*x as i128)).collect());
+                          }
+                        }
+                      }
+                    }
+                  }
+                }
+              }
+            }
+            J::O(vec![("c", s("ptr")), ("ty", s(tys)), ("bytes", bytes)])
+          }
         },
         ConstValue::ZeroSized => J::O(vec![("c", s("zst")), ("ty", s(tys))]),
         ConstValue::Slice { .. } => {
